@@ -43,17 +43,25 @@ def fixtures():
     class Player(Entity):                   # ... and a subclass that only ADDS a field: an object of it has all three
         score: object = None
 
+    class Gauge(S.Serializable):            # two fields and a computed, read-only attribute: the attribute is not a field
+        lo: object = None
+        hi: object = None
+
+        @property
+        def span(self):
+            return (self.hi or 0) - (self.lo or 0) if isinstance(self.hi, int) and isinstance(self.lo, int) else 0
+
     class Bag(S.Serializable):              # container-annotated fields whose declared default is not a container: the constructor installs fresh empty
         items: list = None                  # containers, and an application may well set them back to None ("not loaded yet" is not "empty")
         extra: dict = None
     class Opp(S.SerializableEnum):          # string-valued; every member's NAME is another member's VALUE
         NORTH = "SOUTH"
         SOUTH = "NORTH"
-    _fix.update(S=S, Color=Color, Shape=Shape, Facing=Facing, Point=Point, Empty=Empty, Opp=Opp, PointBase=PointBase, Bag=Bag, Entity=Entity, Player=Player)
+    _fix.update(S=S, Color=Color, Shape=Shape, Facing=Facing, Point=Point, Empty=Empty, Opp=Opp, PointBase=PointBase, Bag=Bag, Entity=Entity, Player=Player, Gauge=Gauge)
     return _fix
 
 
-FIELDS = {"Player": ("uid", "name", "score")}
+FIELDS = {"Player": ("uid", "name", "score"), "Gauge": ("lo", "hi")}
 
 
 def fields_of(cls):
